@@ -2,7 +2,7 @@
 (* C01 (with C03/C05/C06/C20 riding along): the corruption corpus derived from the specification's own
    layout tables.  For the template object, EVERY field of the file header, of every section header
    and of every program header is overwritten, one at a time, with each boundary value
-   {0, 1, 2, 0x7f.., 0x80.., all-ones, len-1, len, len+1} (cut to the field's width); the whole query
+   {0..8, 0x7f.., 0x80.., all-ones, len-1, len, len+1} (cut to the field's width); the whole query
    script is run on each corrupted file.  TLC computes the specification's answer to every query (a
    total function: an evaluation error would be a defect of the model) and emits the session; the
    crate must give the same answers and must not panic, abort, allocate or hang. *)
@@ -24,6 +24,8 @@ Vals(w, len, little) ==
     LET raw == { Zeros(w), [i \in 1..w |-> IF i = 1 THEN 1 ELSE 0], [i \in 1..w |-> IF i = 1 THEN 2 ELSE 0],
                  [i \in 1..w |-> IF i = w THEN 127 ELSE 255], [i \in 1..w |-> IF i = w THEN 128 ELSE 0], Ones(w),
                  SubSeq(W8(len - 1), 1, w), SubSeq(W8(len), 1, w), SubSeq(W8(len + 1), 1, w) }
+               \* every small value: link / info / index fields then point at each section of the template in turn
+               \cup { [i \in 1..w |-> IF i = 1 THEN k ELSE 0] : k \in 3..8 }
     IN IF little THEN raw ELSE { Rev(v) : v \in raw }
 
 VARIABLE c
